@@ -21,17 +21,41 @@ JOBS = [
     dict(name='c08_delta_decode_int64', entry='h_decode_int64', enforce='carquet_delta_decode_int64',
          replace=['delta_decoder_init', 'delta_decoder_next'], min_loop_obligations=1, **D8),
     dict(name='c08_delta_length_decode', entry='h_delta_length_decode', enforce='carquet_delta_length_decode',
-         replace=['carquet_delta_decode_int32'], min_loop_obligations=2,
-         checks=CHK + ['--memory-leak-check'], **D8S),
-    dict(name='c08_delta_length_decode_oom', entry='h_delta_length_decode', enforce='carquet_delta_length_decode',
-         replace=['carquet_delta_decode_int32'], min_loop_obligations=2, tier='thorough', defines=['CQV_OOM=1'],
-         checks=CHK + ['--memory-leak-check'], cbmc_flags=['--malloc-may-fail', '--malloc-fail-null'], **D8S),
+         replace=['carquet_delta_decode_int32'], min_loop_obligations=2, **D8S),
     dict(name='c08_delta_strings_decode', entry='h_delta_strings_decode', enforce='carquet_delta_strings_decode',
          replace=['carquet_delta_decode_int32'], level='bounded', bound='num_values <= 3 strings (all bytes, all sizes)',
-         defines=['CQV_NMAX=1'], unwindset=['carquet_delta_strings_decode.0:2', 'carquet_delta_strings_decode.1:2'],
-         checks=CHK + ['--memory-leak-check'], **D8S),
-    dict(name='c08_delta_strings_decode_oom', entry='h_delta_strings_decode', enforce='carquet_delta_strings_decode',
-         replace=['carquet_delta_decode_int32'], level='bounded', bound='num_values <= 3 strings (all bytes, all sizes)',
-         defines=['CQV_NMAX=3', 'CQV_OOM=1'], unwindset=['carquet_delta_strings_decode.0:4', 'carquet_delta_strings_decode.1:4'],
-         tier='thorough', checks=CHK + ['--memory-leak-check'], cbmc_flags=['--malloc-may-fail', '--malloc-fail-null'], **D8S),
+         defines=['CQV_NMAX=3'], unwindset=['carquet_delta_strings_decode.0:4', 'carquet_delta_strings_decode.1:4'], **D8S),
+    # harness-is-contract: views + every allocation possibly failing + nothing left allocated (C08 last sentence, C19 tier)
+    dict(name='c08_delta_length_views_leak', entry='h_delta_length_views', replace=['carquet_delta_decode_int32'],
+         loop_contracts=False, unwind=4, level='bounded', bound='num_values <= 3 strings (all bytes, all sizes)',
+         defines=['CQV_NMAX=3', 'CQV_OOM=1'], functions=['carquet_delta_length_decode'],
+         checks=CHK + ['--memory-leak-check'], cbmc_flags=['--malloc-may-fail', '--malloc-fail-null'], **D8S),
+    dict(name='c08_delta_strings_views_leak', entry='h_delta_strings_views', replace=['carquet_delta_decode_int32'],
+         loop_contracts=False, unwind=4, level='bounded', bound='num_values <= 3 strings (all bytes, all sizes)',
+         defines=['CQV_NMAX=3', 'CQV_OOM=1'], functions=['carquet_delta_strings_decode'],
+         checks=CHK + ['--memory-leak-check'], cbmc_flags=['--malloc-may-fail', '--malloc-fail-null'], **D8S),
+]
+
+# ---------------- encoder side: C11 (round trip ingredients) / C12 (layout per Encodings.md) ----------------
+D11 = dict(overlays=['contracts/delta.ovl'], harness='harness/C11/delta.c', props=['C11', 'C12'], includes=['.', 'src'],
+           extra_sources=['stubs/mem_stubs.c', 'stubs/delta_stubs.c'], wip=True)
+JOBS += [
+    dict(name='c11_delta_zigzag_uleb_roundtrip', entry='h_zigzag_uleb_roundtrip', loop_contracts=False, unwind=11,
+         functions=['zigzag_encode64', 'zigzag_decode64', 'write_uleb128', 'read_uleb128'], **D11),
+    dict(name='c11_delta_write_uleb128', entry='h_write_uleb128', enforce='write_uleb128', loop_contracts=False,
+         unwindset=['write_uleb128.0:11'], **D11),
+    dict(name='c11_delta_bit_width_required', entry='h_bit_width_required', enforce='bit_width_required', loop_contracts=False,
+         unwindset=['bit_width_required.0:66'], unwind=66, **D11),
+    dict(name='c11_delta_flush_block', entry='h_flush_block', enforce='delta_encoder_flush_block',
+         replace=['write_uleb128', 'bit_width_required'], min_loop_obligations=8,
+         unwindset=['delta_encoder_flush_block.2:5', 'delta_encoder_flush_block.9:5'], trusted=[BITPACK_STUB], **D11),
+    dict(name='c12_delta_flush_block_spec_size', entry='h_flush_block', enforce='delta_encoder_flush_block',
+         replace=['write_uleb128', 'bit_width_required'], min_loop_obligations=8, defines=['CQV_SPEC_SIZE=1'],
+         unwindset=['delta_encoder_flush_block.2:5', 'delta_encoder_flush_block.9:5'], trusted=[BITPACK_STUB],
+         **dict(D11, props=['C12'])),
+    dict(name='c11_delta_encode_int32', entry='h_encode_int32', enforce='carquet_delta_encode_int32',
+         replace=['write_uleb128', 'delta_encoder_flush_block'], min_loop_obligations=1,
+         defines=['CQV_MEMSET_EXACT=1080'], **D11),
+    dict(name='c11_delta_encode_int64', entry='h_encode_int64', enforce='carquet_delta_encode_int64',
+         replace=['write_uleb128', 'delta_encoder_flush_block'], min_loop_obligations=1, **D11),
 ]
